@@ -270,7 +270,14 @@ pub fn c08_leaf(env: &mut Env, leaf: &Leaf) {
     };
     env.stats.traces += 1;
     let dir = env.scratch2.path.clone();
-    let faults = inplace_faults(&d);
+    let mut faults = inplace_faults(&d);
+    // D7 predicate: the fault touches nothing but the 2-byte length field of a frame written by an
+    // append whose payload is a frame / entry image
+    for (patch, _, on_emb) in faults.iter_mut() {
+        *on_emb = patch.iter().all(|(file, off, bytes)| {
+            d.frames.iter().any(|f| d.emb_frames.contains(&f.op) && f.file == *file && *off >= f.offset + 4 && off + bytes.len() <= f.offset + 6)
+        });
+    }
     let nfaults = faults.len();
     env.stats.sample(|| json!({"engine": "damage", "seed": leaf.seed.name, "ops": leaf.ops.iter().map(|o| o.short()).collect::<Vec<_>>(), "wal_files": d.image.len(), "frames": d.frames.len(), "faults_enumerated": nfaults, "first_fault": faults.first().map(|f| f.1.clone())}));
     for (patch, descr, on_emb_carrier) in faults {
@@ -284,7 +291,7 @@ pub fn c08_leaf(env: &mut Env, leaf: &Leaf) {
                 env.stats.state(&hash_of(&obs));
                 env.stats.nontrivial(&(hash_of(&obs), descr["kind"].as_str().map(|s| s.to_string())));
                 if let Err((q, p, b, why)) = genuine(&d, &obs) {
-                    let emb = on_emb_carrier && (q.clone(), p, b.clone()) == emb_record() && descr["kind"] == "length-field";
+                    let emb = on_emb_carrier && (q.clone(), p, b.clone()) == emb_record();
                     env.stats.violation(Violation {
                         property: "C08".into(),
                         signature: if emb { "length-fault-exposes-frame-shaped-payload".into() } else { format!("phantom-record-{}", why) },
